@@ -36,3 +36,41 @@ Definition svd_flip_conj (U V : list (list K)) (u_based : bool) : list (list K) 
   else
     let sg := csigns_v V in (cscale_cols (cfit (ncols U) sg) U, cscale_rows (map cj sg) V).
 End Conj.
+
+(* ---------- symeig_svd as of commit d995974: the Gram matrix is formed with the CONJUGATE transpose matrix_h = conj(transpose(matrix)),
+   and the returned V is conj(transpose(V)).  Same structure as Model/Svd.v symeig_svd, with the conjugation cj as an argument. ---------- *)
+Section SymeigConj.
+Context {F : Type} (Op : fops F) (cj : F -> F).
+Definition cjmat (M : list (list F)) : list (list F) := map (map cj) M.
+Definition symeig_svd_conj (eigh : list (list F) -> list F * list (list F)) (sq : F -> F) (eps : F) (M : list (list F)) (d1 d2 : nat)
+    (n : option nat) : triple F :=
+  let '(k, _, _) := svd_checks d1 d2 n in
+  let Mh := cjmat (transp Op d2 M) in
+  let '(U, Sg, V) :=
+    if d2 <? d1 then
+      let '(lam, W) := eigh (mmul Op d1 M Mh) in
+      let Sg := map (fun x => sq (clip_lo Op eps x)) lam in
+      (W, Sg, mmul Op d1 Mh (div_cols Op W Sg))
+    else
+      let '(lam, W) := eigh (mmul Op d2 Mh M) in
+      let Sg := map (fun x => sq (clip_lo Op eps x)) lam in
+      (div_cols Op (mmul Op d2 M W) Sg, Sg, W) in
+  let c := if d2 <? d1 then d1 else d2 in
+  let U := map (@rev F) U in
+  let Sg := rev Sg in
+  let V := rev (cjmat (transp Op c V)) in
+  (map (firstn (Nat.min d1 k)) U, firstn (Nat.min (Nat.min d1 d2) k) Sg, firstn (Nat.min d2 k) V).
+
+(* svd_interface without mask / non_negative, with the sign-resolution function as an argument (the real model uses svd_flip Op,
+   complex requests use the conjugate-aware flip) *)
+Definition svd_interface_flip (flipf : list (list F) -> list (list F) -> bool -> list (list F) * list (list F))
+    (funs : fname -> nat -> list (list F) -> triple F) (meth : method) (M : list (list F)) (flip_sign u_based : bool) : res (triple F) :=
+  match dispatch meth with
+  | None => Err
+  | Some f =>
+    let '(U, Sg, V) := funs f 0 M in
+    let '(U, V) := if flip_sign then flipf U V u_based else (U, V) in
+    Ok (U, Sg, V)
+  end.
+End SymeigConj.
+
